@@ -12,6 +12,7 @@ import ast
 
 from ..model import self_attr, unparse, walk_body_shallow
 from .c09 import exc_table
+from .util import *  # noqa: F401,F403
 from .util import callee_expr, aliases_of, chains_in, call_name, call_recv, calls_in, kwarg, need, node_assign_value, norm, registrations, where
 
 TECHNIQUE = "error-funnel completeness over Deferred chains with per-failure-class path pruning; arm exhaustiveness"
@@ -232,8 +233,16 @@ def run(ctx):
     dv = unparse(init[0].stmt.targets[0]) if init else None
     used = norm(c.args[0]) if c.args else ""
     defs = [x for x in walk_body_shallow(rae.body) if isinstance(x, ast.Assign) and unparse(x.targets[0]) == used]
-    r.check(dv is not None and (dv in used or any(dv in norm(x.value) for x in defs)), "%s#delay-used" % rae.qname,
-            "the timer is not armed with the selected back-off", where(rae, sched[0].stmt))
+    lo = leaf_origins(cf, sched[0].id, c.args[0], params=rae.params) if c.args else None
+    backoffs = {"self.retry_backoff_ms", "self.fatal_backoff_ms"}
+    def _numeric(x):  # a literal, or a module constant holding one (unit conversion)
+        if x.replace(".", "", 1).isdigit():
+            return True
+        return x.isidentifier() and isinstance(const_value(prog, rae, ast.Name(id=x, ctx=ast.Load())), (int, float))
+    okd = lo is not None and backoffs <= lo and all(x in backoffs or _numeric(x) for x in lo)
+    r.check(okd, "%s#delay-used" % rae.qname,
+            "the timer is not armed with the selected back-off (delay computed from %s)" % (sorted(lo) if lo is not None else "?"),
+            where(rae, sched[0].stmt))
 
     # ---- R6 the gate handle is cleared on every path of the timer's callback; the in-progress marker on both outcomes
     r = ctx.rule("R6", "rejoin timer handle is cleared on every path of join_and_sync; _rejoin_d is cleared by an on-both stage", 2, "B+C")
